@@ -24,6 +24,18 @@ ARROW_TYPES = {
     "bool": pa.bool_(),
 }
 
+# Additive (C29): dictionary-encoded column types.  Deliberately NOT in ARROW_TYPES, so the column strategies
+# of lib/programs.py (which sample ARROW_TYPES) are unchanged; only specs that name these types use them.
+EXTRA_ARROW_TYPES = {
+    "dict_utf8": pa.dictionary(pa.int32(), pa.utf8()),
+    "dict_int64": pa.dictionary(pa.int8(), pa.int64()),
+}
+
+
+def arrow_type(name: str) -> pa.DataType:
+    t = ARROW_TYPES.get(name)
+    return t if t is not None else EXTRA_ARROW_TYPES[name]
+
 
 class CustomAppError(Exception):
     """User-defined exception class (no error_kind)."""
@@ -71,7 +83,7 @@ def record(run_id: str, **ev: Any) -> None:
 
 
 def schema_of(cols: list[dict[str, str]]) -> pa.Schema:
-    return pa.schema([pa.field(c["name"], ARROW_TYPES[c["type"]]) for c in cols])
+    return pa.schema([pa.field(c["name"], arrow_type(c["type"])) for c in cols])
 
 
 def batch_of(cols: list[dict[str, str]], rows: dict[str, list[Any]] | int) -> pa.RecordBatch:
@@ -185,6 +197,7 @@ def exchange(state: Any, inp: Any, out: Any, ctx: Any) -> None:
         state_id=id(state),
         in_schema=[(f.name, str(f.type)) for f in inp.batch.schema],
         in_rows=inp.batch.num_rows,
+        in_data=inp.batch.to_pydict(),
     )
     r = resp[i] if i < len(resp) else {"logs": [], "action": {"op": "echo_len"}}
     _emit_logs(r["logs"], out.client_log)
@@ -203,7 +216,7 @@ def exchange(state: Any, inp: Any, out: Any, ctx: Any) -> None:
         rows: dict[str, list[Any]] = {}
         for c in cols:
             rows[c["name"]] = [
-                {"int64": n, "float64": float(n), "utf8": str(n), "binary": str(n).encode(), "bool": n > 0}[c["type"]]
+                {"int64": n, "float64": float(n), "utf8": str(n), "binary": str(n).encode(), "bool": n > 0, "dict_utf8": str(n), "dict_int64": n}[c["type"]]
             ]
         out.emit(batch_of(cols, rows if cols else 1))
         return
